@@ -301,7 +301,8 @@ func TestC21(t *testing.T) {
 		w.close()
 	}
 	run.Require("recv_on_replica_with_opt_in", "recv_on_primary_without_opt_in", "selector_out_of_range_fell_back_to_primary", "selector_in_range_honoured",
-		"batch_not_all_true_on_primary", "replica_only_recv_on_replica", "cluster_per_command_split")
+		"batch_not_all_true_on_primary", "replica_only_recv_on_replica", "cluster_per_command_split",
+		"keyless_member_not_opted_in_on_primary", "keyless_member_opted_in_on_replica")
 }
 
 func firstLine(s string) string {
@@ -393,6 +394,17 @@ func (w *world) oneCall(run *mon.Run, rng *rand.Rand, ctx context.Context, cfg w
 		return k
 	}
 	batch := false
+	hasKeyless := false
+	// keyless builds a command without a key (ECHO uid), tagged read-only or not
+	keyless := func(ro bool) rueidis.Completed {
+		uid, _ := w.newUID()
+		cmdsIssued = append(cmdsIssued, issuedCmd{uid: uid, readonly: ro})
+		hasKeyless = true
+		if ro {
+			return c.B().Arbitrary("ECHO").Args(uid).ReadOnly()
+		}
+		return c.B().Arbitrary("ECHO").Args(uid).Build()
+	}
 	switch kind {
 	case "Do":
 		c.Do(ctx, echo(true, tag+"k"))
@@ -401,12 +413,24 @@ func (w *world) oneCall(run *mon.Run, rng *rand.Rand, ctx context.Context, cfg w
 	case "DoMulti":
 		batch = true
 		n := 1 + rng.Intn(8)
-		cs := make(rueidis.Commands, n)
 		allRO := rng.Intn(2) == 0
+		withKeyless := rng.Intn(3) == 0 // key-less members: the cluster client then wants a single slot for the keyed ones
+		if withKeyless && n < 2 {
+			n = 2
+		}
+		cs := make(rueidis.Commands, n)
 		for i := range cs {
+			if withKeyless && i == 0 { // at least one keyed member: a batch of key-less commands only has no slot at all (that is the lone key-less case)
+				cs[i] = echo(allRO || rng.Intn(3) > 0, tag+"k")
+				continue
+			}
 			t := tag
-			if w.mode == "cluster" {
+			if w.mode == "cluster" && !withKeyless {
 				t = fmt.Sprintf("{t%d}", rng.Intn(40))
+			}
+			if withKeyless && (rng.Intn(3) == 0 || i == n-1 && !hasKeyless) {
+				cs[i] = keyless(rng.Intn(2) == 0)
+				continue
 			}
 			cs[i] = echo(allRO || rng.Intn(3) > 0, t+"k")
 		}
@@ -433,8 +457,20 @@ func (w *world) oneCall(run *mon.Run, rng *rand.Rand, ctx context.Context, cfg w
 	case "DoMultiStream":
 		batch = true
 		n := 1 + rng.Intn(4)
+		withKeyless := rng.Intn(2) == 0
+		if withKeyless && n < 2 {
+			n = 2
+		}
 		cs := make(rueidis.Commands, n)
 		for i := range cs {
+			if withKeyless && i == 0 {
+				cs[i] = echo(true, tag+"k")
+				continue
+			}
+			if withKeyless && (rng.Intn(3) == 0 || i == n-1 && !hasKeyless) {
+				cs[i] = keyless(rng.Intn(2) == 0) // opted in or not, depending on the predicate
+				continue
+			}
 			cs[i] = echo(true, tag+"k")
 		}
 		s := c.DoMultiStream(ctx, cs...)
@@ -509,10 +545,18 @@ func (w *world) oneCall(run *mon.Run, rng *rand.Rand, ctx context.Context, cfg w
 				run.Observe("replica_only_recv_on_replica", 1)
 			case premise:
 				run.Observe("recv_on_replica_with_opt_in", 1)
+				if ic.key == "" && batch {
+					run.Observe("keyless_member_opted_in_on_replica", 1)
+				}
 			default:
-				if ic.key == "" {
-					// a command without a key: one stable key per mode, whatever the predicate and selector are
+				if ic.key == "" && batch {
+					// a key-less member of a batch that was not opted in dragged to a replica with the batch
+					run.Violation("replica-without-opt-in", fmt.Sprintf("%s|%s|keyless-member-not-opted-in", w.mode, kind), wit())
+				} else if ic.key == "" {
+					// a lone command without a key: one stable key per mode, whatever the predicate and selector are
 					run.Violation("replica-without-opt-in", fmt.Sprintf("%s|%s|keyless-command", w.mode, kind), wit())
+				} else if batch && hasKeyless {
+					run.Violation("replica-without-opt-in", keyOf("keyed-member-of-batch-with-keyless"), wit())
 				} else {
 					run.Violation("replica-without-opt-in", keyOf("keyed"), wit())
 				}
@@ -520,13 +564,16 @@ func (w *world) oneCall(run *mon.Run, rng *rand.Rand, ctx context.Context, cfg w
 		} else {
 			if !premise && !w.replicaOnly {
 				run.Observe("recv_on_primary_without_opt_in", 1)
+				if ic.key == "" && batch {
+					run.Observe("keyless_member_not_opted_in_on_primary", 1)
+				}
 				if batchRule && consulted && !allMembersTrue && anyTrue(uid) {
 					run.Observe("batch_not_all_true_on_primary", 1)
 				}
 			}
 		}
 		// selector fall-back
-		if first && premise && !w.replicaOnly && ic.key != "" {
+		if first && premise && !w.replicaOnly && ic.key != "" && !(w.mode == "cluster" && kind == "DoMulti" && hasKeyless) {
 			w.checkSelector(run, e, ic, selCalls, keyOf, wit)
 		}
 	}
